@@ -9,6 +9,15 @@ CLAIMED = {
  'C01': ("bounded-exhaustive enumeration per factor (400-year cycle days, seconds of day, cycle indices) + proptest mixture, against an independent calendar oracle",
          "Exploration: every day of the 400-year cycle at boundary and random cycle indices, every second of chosen days, every cycle index (thorough), range boundaries and a proptest mixture are converted through both entry points and compared field by field (incl. weekday, year-day, refusal) with an independent era-based calendar validated against a day-by-day odometer. Complete per factor, sampled across factors; no proof.",
          "Trusts the O-cal oracle (self-tested at start-up) and the 400-year periodicity of the Gregorian calendar; nanoseconds are treated as pass-through in from_timespec.", "DESIGN.md §5 C01"),
+ 'C02': ("bounded-exhaustive validity grid and cycle-day enumeration + proptest (valid, single-defect, successor and random pairs) against an independent calendar oracle; round trips; monotonicity metamorphic relation",
+         "Exploration: all 65536 (month, day) byte pairs for 10 year classes, all days of the 400-year cycle at fixed and random eras with 4 times each, every day of years i32::MIN/MAX, plus proptest-generated valid tuples, single-field perturbations, and (date, successor) / random pairs. Accept/reject, error class (specific variant for single defects), exact Unix time, both round trips, second 60 semantics, strict monotonicity and Ord agreement are asserted. Complete per factor, sampled across factors.",
+         "Trusts O-cal (self-tested). Specific error variant only asserted for single-defect inputs.", "DESIGN.md §5 C02"),
+ 'C16': ("enumeration of k*1e9+e boundary counts + proptest over i128 / offsets, against a truncating-division reference split; constructor agreement (differential between the total-nanoseconds and (seconds, nanoseconds) constructors)",
+         "Exploration: boundary enumeration (multiples of 1e9 +-2 around 0, the range ends, i64 and i128 extremes) and a proptest mixture over all i128 x i32 offsets; split, recombination, refusal boundaries and equality with the (seconds, nanoseconds) constructors in every field; invalid nanosecond arguments through new/find/find_n.",
+         "Reference split written with truncating / and % plus fix-up.", "DESIGN.md §5 C16"),
+ 'C18': ("proptest over date-times x offsets (full i32) + enumeration of 16k offsets, checked by an independent strict reader of the text form (round trip text -> fields/offset)",
+         "Exploration: every offset in -7200..=7200 and 8000 offsets around +-100 h, +-1000 h and the i32 extremes on 4 base date-times (both constructors), plus a proptest mixture of years (full i32), seconds 0..60, nanoseconds and offsets; the rendered text must match the documented shape exactly and read back to the same fields, nanoseconds and offset.",
+         "The strict reader is the specification of the shape (written from the property text).", "DESIGN.md §5 C18"),
 }
 
 def entry(pid):
